@@ -19,11 +19,13 @@ pub struct ModGenOpts {
     pub allow_passes: bool,
     pub allow_permuted_toc: bool,
     pub orientation: bool,
+    /// preview frames (decided by the tail seed)
+    pub allow_preview: bool,
 }
 
 impl Default for ModGenOpts {
     fn default() -> Self {
-        ModGenOpts { max_dim: 1100, multi_group: 24, narrow: false, allow_ec: true, allow_float: true, allow_passes: true, allow_permuted_toc: true, orientation: false }
+        ModGenOpts { max_dim: 1100, multi_group: 24, narrow: false, allow_ec: true, allow_float: true, allow_passes: true, allow_permuted_toc: true, orientation: false, allow_preview: true }
     }
 }
 
@@ -176,6 +178,117 @@ fn ceil_shift(v: usize, s: u32) -> usize {
     (v + (1 << s) - 1) >> s
 }
 
+/// Sections of a Modular frame in logical order from the encoder's bit streams.
+fn assemble_sections(bitsout: &ModularFrameBits, n_entries: usize) -> Vec<Vec<u8>> {
+    let mut sections: Vec<Vec<u8>> = vec![];
+    if n_entries == 1 {
+        let mut wr = BitWriter::new();
+        write_lf_global_preamble_plain(&mut wr);
+        wr.append(&bitsout.global);
+        wr.append(&bitsout.lf_groups[0]);
+        wr.append(&bitsout.pass_groups[0][0]);
+        sections.push(wr.finish());
+    } else {
+        let mut wr = BitWriter::new();
+        write_lf_global_preamble_plain(&mut wr);
+        wr.append(&bitsout.global);
+        sections.push(wr.finish());
+        for lg in &bitsout.lf_groups {
+            sections.push(lg.clone().finish());
+        }
+        sections.push(vec![]); // HfGlobal: nothing for Modular frames
+        for p in &bitsout.pass_groups {
+            for g in p {
+                sections.push(g.clone().finish());
+            }
+        }
+    }
+    sections
+}
+
+/// Preview frame, decided by the tail seed (byte 6) so that older choice sequences keep their case: sets
+/// `ih.preview` and returns the bytes of a complete Modular frame whose dimensions are the preview's (the frame
+/// header carries no size of its own: a decoder has to take the group / TOC geometry from the preview header).
+/// The sizes are chosen so that the preview and the image often differ in their number of groups.
+fn gen_preview_frame(src: &Src, ih: &mut ImageHeaderSpec, o: &ModGenOpts) -> Option<(Vec<u8>, String)> {
+    let tail = src.tail_fork_bytes(72);
+    if !o.allow_preview || tail[6] % 6 != 1 {
+        return None;
+    }
+    let mut psrc = Src::new(&tail[8..]);
+    let dim = |s: &mut Src| -> u32 {
+        match s.weighted(&[4, 2, 1]) {
+            0 => s.range(1, 24) as u32,
+            1 => s.range(25, 140) as u32,
+            _ => s.range(141, 300) as u32,
+        }
+    };
+    let (pw, ph) = (dim(&mut psrc), dim(&mut psrc));
+    if !preview_size_ok(pw, ph) {
+        return None;
+    }
+    ih.preview = Some((pw, ph));
+    let mut pih = ih.clone();
+    pih.width = pw;
+    pih.height = ph;
+    let mut fh = FrameHeaderSpec::simple_modular(&pih);
+    fh.group_size_shift = psrc.range(0, 3) as u32;
+    let group_dim = 128usize << fh.group_size_shift;
+    let fg = frame_geometry(&fh, &pih);
+    let geom = FrameGeom {
+        group_dim,
+        groups_per_row: fg.groups_per_row as usize,
+        groups_per_col: (fg.num_groups / fg.groups_per_row) as usize,
+        lf_groups_per_row: fg.lf_groups_per_row as usize,
+        lf_groups_per_col: (fg.num_lf_groups / fg.lf_groups_per_row) as usize,
+        pass_shifts: pass_shifts_of(&fh.passes),
+    };
+    let range_of = |d: &BitDepthSpec| -> (i64, i64) {
+        match *d {
+            BitDepthSpec::Float { bits, exp_bits } => {
+                let mant = bits - exp_bits - 1;
+                (1i64 << mant, (((1i64 << exp_bits) - 2) << mant) | ((1i64 << mant) - 1))
+            }
+            BitDepthSpec::Int { bits } => (0, (1i64 << bits.min(if o.narrow { 15 } else { 30 })) - 1),
+        }
+    };
+    let n_colour = if matches!(ih.colour_encoding, ColourEncodingSpec::Enum { colour_space: 1, .. }) { 1 } else { 3 };
+    let (w, h) = (pw as usize, ph as usize);
+    let mut image: Vec<Chan> = vec![];
+    let (lo, hi) = range_of(&ih.bit_depth);
+    for _ in 0..n_colour {
+        let mut ch = Chan::new(w, h);
+        fill_channel(&mut psrc, &mut ch, lo, hi);
+        image.push(ch);
+    }
+    for e in &ih.ec_info {
+        let sh = e.dim_shift;
+        let mut ch = Chan::with_shift(ceil_shift(w, sh), ceil_shift(h, sh), sh as i32, sh as i32);
+        let (elo, ehi) = range_of(&e.bit_depth);
+        fill_channel(&mut psrc, &mut ch, elo, ehi);
+        image.push(ch);
+    }
+    let bits = ih.bit_depth.bits();
+    let is_float = matches!(ih.bit_depth, BitDepthSpec::Float { .. });
+    let mo = ModularOpts {
+        bit_depth: bits,
+        range_limit: if o.narrow { 1 << 15 } else { 1 << 31 },
+        allow_transforms: true,
+        allow_squeeze: bits <= 24,
+        allow_rct: bits <= 24,
+        allow_palette: true,
+        allow_lz77: true,
+        allow_multiplier: false,
+        amplitude: if is_float { 1 << 20 } else { ((hi - lo) / 4).clamp(1, 1 << 24) },
+    };
+    let bitsout = encode_modular_frame(&mut psrc, &image, &geom, &mo);
+    let sections = assemble_sections(&bitsout, toc_entry_count(&fh, &pih) as usize);
+    let mut out = vec![];
+    write_frame(&mut out, &fh, &pih, &sections, false, &mut psrc);
+    let class = format!("preview:{}", if sections.len() == 1 { "single-section" } else { "multi-section" });
+    Some((out, class))
+}
+
 pub fn gen_modular_case(src: &mut Src, o: &ModGenOpts) -> ModularCase {
     let mut classes = vec![];
     let group_size_shift = if src.chance(150) { 0 } else { src.range(0, 3) as u32 };
@@ -191,7 +304,15 @@ pub fn gen_modular_case(src: &mut Src, o: &ModGenOpts) -> ModularCase {
         (gen_dim(src, o, false, group_dim), gen_dim(src, o, false, group_dim))
     };
     // bit depth
-    let bit_depth = if o.narrow {
+    // narrow mode, large magnitudes (tail seed, so that older choice sequences keep their case): depth 13..15 or
+    // samples over the whole signed 16-bit range.  Stored samples still fit the declared buffers; sums such as
+    // N + W - NW inside a predictor do not, and a decoder has to widen them.
+    let large_sel = src.tail_fork_bytes(6)[5];
+    let narrow_large = o.narrow && large_sel % 4 == 1;
+    let bit_depth = if narrow_large {
+        let _ = src.range(1, 12);
+        BitDepthSpec::Int { bits: 13 + (large_sel as u32 / 4) % 3 }
+    } else if o.narrow {
         BitDepthSpec::Int { bits: src.range(1, 12) as u32 }
     } else if o.allow_float && src.chance(24) {
         match src.below(3) {
@@ -263,6 +384,9 @@ pub fn gen_modular_case(src: &mut Src, o: &ModGenOpts) -> ModularCase {
             }
             _ => unreachable!(),
         }
+    } else if narrow_large && large_sel / 16 % 2 == 1 {
+        classes.push("narrow:full-i16-range".into());
+        (-32768, 32767)
     } else if (o.narrow && bits > 12) || src.chance(200) {
         (0, (1i64 << bits) - 1)
     } else if o.narrow {
@@ -321,33 +445,16 @@ pub fn gen_modular_case(src: &mut Src, o: &ModGenOpts) -> ModularCase {
     let bitsout = encode_modular_frame(src, &image, &geom, &mo);
     classes.extend(bitsout.classes.iter().cloned());
     // sections
-    let n_entries = toc_entry_count(&fh, &ih) as usize;
-    let mut sections: Vec<Vec<u8>> = vec![];
-    if n_entries == 1 {
-        let mut wr = BitWriter::new();
-        write_lf_global_preamble_plain(&mut wr);
-        wr.append(&bitsout.global);
-        wr.append(&bitsout.lf_groups[0]);
-        wr.append(&bitsout.pass_groups[0][0]);
-        sections.push(wr.finish());
-        classes.push("toc:single".into());
-    } else {
-        let mut wr = BitWriter::new();
-        write_lf_global_preamble_plain(&mut wr);
-        wr.append(&bitsout.global);
-        sections.push(wr.finish());
-        for lg in &bitsout.lf_groups {
-            sections.push(lg.clone().finish());
-        }
-        sections.push(vec![]); // HfGlobal: nothing for Modular frames
-        for p in &bitsout.pass_groups {
-            for g in p {
-                sections.push(g.clone().finish());
-            }
-        }
-        classes.push("toc:multi".into());
-    }
+    let sections = assemble_sections(&bitsout, toc_entry_count(&fh, &ih) as usize);
+    classes.push(if sections.len() == 1 { "toc:single" } else { "toc:multi" }.into());
+    // preview frame (tail seed): a frame of the preview header's size between the headers and the first frame
+    let mut ih = ih;
+    let preview = gen_preview_frame(src, &mut ih, o);
     let mut bytes = write_codestream_start(&ih, None, src);
+    if let Some((pbytes, pclass)) = preview {
+        bytes.extend_from_slice(&pbytes);
+        classes.push(pclass);
+    }
     let header_len = bytes.len();
     let permute = o.allow_permuted_toc && src.chance(64);
     let layout = write_frame(&mut bytes, &fh, &ih, &sections, permute, src);
